@@ -16,6 +16,11 @@
   `EVal` extends the shared `Val` by the containers `eq` dispatches on.  numpy scalars are the
   cells they are equal to (`NI:`/`NF:`/`NB:` on the wire); `pd.Timestamp` is the `dt` cell it is
   `==` to (`PT:`); a `datetime.date` is a separate constructor because `date != datetime` in Python.
+  `np.datetime64` of any unit is read as the `pd.Timestamp` of its instant (`_scalar`, fix C14-F6: the
+  `dt` cell; numpy's own `==` casts units, so a day-resolution value was `==` to a `date`),
+  `np.timedelta64` / `pd.Timedelta` / `datetime.timedelta` are the duration `tdelta` (microseconds;
+  never `==` to a number), and `pd.NaT` - which `np.datetime64('NaT')` / `np.timedelta64('NaT')` become -
+  is the single object `nat`: equal to itself by identity (`x is y`), `==` to nothing.
 -/
 import PygModel.Sort
 
@@ -28,6 +33,8 @@ row-major order (an object array may hold anything).  `series idx cells`, `frame
 inductive EVal where
   | cell (c : Cell)
   | date (d : Int)
+  | tdelta (us : Int)
+  | nat
   | list (xs : List EVal)
   | tuple (xs : List EVal)
   | dict (cls : Nat) (kvs : List (String × EVal))
@@ -73,6 +80,8 @@ mutual
   def eqN : EVal → EVal → Bool
     | .cell a, .cell b => cellEq a b                       -- NaN branch / `x == y`
     | .date a, .date b => a == b                           -- `x == y` on two dates
+    | .tdelta a, .tdelta b => a == b                       -- `x == y` on two durations
+    | .nat, .nat => true                                   -- `x is y`: `pd.NaT` is one object
     | .list xs, .list ys => eqArr xs ys                    -- :72
     | .tuple xs, .tuple ys => eqArr xs ys                  -- :72
     | .arr s xs, .arr t ys => s == t && eqArr xs ys        -- :74 (shape, then veq)
@@ -102,6 +111,8 @@ mutual
   def EVal.norm : EVal → EVal
     | .cell c => .cell c
     | .date d => .date d
+    | .tdelta d => .tdelta d
+    | .nat => .nat
     | .list xs => .list (EVal.normList xs)
     | .tuple xs => .tuple (EVal.normList xs)
     | .dict c kvs => .dict c (sortK (EVal.normKVs kvs))
@@ -129,6 +140,7 @@ mutual
   def EVal.plain : EVal → Bool
     | .cell c => c != .nan
     | .date _ => true
+    | .tdelta _ => true                                    -- (`nat` is not plain: `NaT != NaT`)
     | .list xs => EVal.plainList xs
     | .tuple xs => EVal.plainList xs
     | .dict c kvs => c == 0 && EVal.plainKVs kvs
@@ -153,6 +165,7 @@ mutual
   def pyEqV : EVal → EVal → Bool
     | .cell a, .cell b => Cell.pyEq a b
     | .date a, .date b => a == b
+    | .tdelta a, .tdelta b => a == b
     | .list xs, .list ys => pyEqArr xs ys
     | .tuple xs, .tuple ys => pyEqArr xs ys
     | .dict _ a, .dict _ b => a.length == b.length && pyEqItems a b
